@@ -234,6 +234,128 @@ S.append(Schema('char_rule', [Rule('R', Seq(F('k', 0, Ref('Cls')), Opt(F('j', 1,
     extract=J(ty('v.k', 'Cls'), ty('v.k', 'char'), '                o.f[0].push(1000 + v.k as u16);', '                if let Some(j) = v.j { o.f[1].push(1000 + j as u16); }'),
     note='@char rules: literal, range and nested @char parts; @check on a @char rule sees the next character'))
 
+# ---------------------------------------------------------------------------------------------- second batch
+S.append(Schema('multi_extend', [Rule('R', Seq(Star(fa()), fa(), Opt(fa()), fb()), skip=False, export=True)], 'R', 'AB', n=4, nonzero='A',
+    props=('C02', 'C03', 'C01', 'C10'),
+    extract=J(ty('v.a', 'Vec<A>'), vec(0, 'v.a'), one(1, 'v.b')),
+    note='{a:A} a:A [a:A] b:B: several occurrences of one field extend one Vec in input order'))
+
+S.append(Schema('position_enum_override', [Rule('R', Seq(fc(), F('e', 0, Ref('E'))), export=True),
+                                           Rule('E', Alt(F('_', 0, Ref('P'), override=True), F('_', 0, Ref('Q'), override=True)), extra_directives=('@position',)),
+                                           Rule('P', Seq(fa()), position=(0, 1)), Rule('Q', Seq(fb()), position=(0, 1))], 'R', 'ABC', n=3, alphabet='x ',
+    props=('C09', 'C03', 'C02'),
+    extract=J('                use peginator::PegPosition;', one(2, 'v.c'),
+              '                match &v.e { E::P(p) => o.f[0].push(p.a), E::Q(q) => o.f[1].push(q.b) }',
+              '                o.x[0] = v.e.position().start as i32; o.x[1] = v.e.position().end as i32;'),
+    note='@position E = @:P | @:Q: an enum override of @position rules reports the range of the rule that matched'))
+
+S.append(Schema('check_string', [Rule('R', Alt(Seq(F('s', 0, Ref('St')), fc()), fd()), skip=False, export=True),
+                                 Rule('St', Seq(A, Star(B)), skip=False, string=(0, 1), checks=[(0, 'crate::ops::chk_str0', 'string')])], 'R', 'ABCD', n=3, nchk=1, nonzero='B',
+    props=('C14', 'C02'),
+    extract=J('                if let Some(s) = &v.s { o.x[0] = 0; o.x[1] = s.len() as i32; if s.as_bytes() != &t.sym[0..s.len()] { o.x[2] = -1; } }', opt(2, 'v.c'), opt(3, 'v.d')),
+    note='@string @check: the check sees the finished string; a failed check backtracks to the next alternative'))
+
+S.append(Schema('check_override', [Rule('R', Alt(Seq(F('o', 0, Ref('O')), fc()), fd()), skip=False, export=True),
+                                   Rule('O', Alt(F('_', 0, A, override=True), Seq(B, F('_', 0, A, override=True))), skip=False, checks=[(0, 'crate::ops::chk0', 'first')])], 'R', 'ABCD', n=2, nchk=1,
+    props=('C14', 'C02'),
+    extract=J(opt(0, 'v.o'), opt(2, 'v.c'), opt(3, 'v.d')),
+    note='@check on an override rule sees the overridden value'))
+
+S.append(Schema('leftrec_indirect', [Rule('R', Seq(F('l', 0, Ref('L')), Opt(fc())), skip=False, export=True),
+                                     Rule('L', Alt(Seq(F('m', 0, Ref('M')), fb()), fa()), skip=False, leftrec=True),
+                                     Rule('M', Seq(F('l', 0, Ref('L'), boxed=True)), skip=False)], 'R', 'ABC', n=3, nonzero='B',
+    props=('C07',), cmp_err=False,
+    extract=J('                fn walk(l: &L, o: &mut Obs) { if let Some(m) = &l.m { walk(&m.l, o); } if let Some(t) = &l.a { o.f[0].push(*t); } if let Some(t) = &l.b { o.f[1].push(*t); } }',
+              '                walk(&v.l, &mut o);', opt(2, 'v.c')),
+    note='@leftrec L = m:M b:B | a:A with M = l:*L: left recursion through a non-memoized rule'))
+
+S.append(Schema('extern_string', [Rule('R', Seq(fa(), Opt(fb())), skip=False, export=True)], 'R', 'AB', n=3, extern_str='A',
+    props=('C14', 'C03'),
+    extract=J(ty('v.a', 'String'), '                o.f[0].push(v.a.parse::<u16>().unwrap_or(9999));', opt(1, 'v.b')),
+    note='@extern rule without a result type yields a String (converted with into)'))
+
+S.append(Schema('include_nested', [Rule('R', Seq(fa(), Inc('I1'), Eoi()), export=True),
+                                   Rule('I1', Seq(fb(), Inc('I2')), skip=False),
+                                   Rule('I2', Seq(Opt(fc()), Lit('y')), skip=True)], 'R', 'ABC', n=3, alphabet='x y',
+    props=('C13', 'C08'), extract=J(one(0, 'v.a'), one(1, 'v.b'), opt(2, 'v.c')),
+    note='a:A >I1 $ with @no_skip_ws I1 = b:B >I2 and I2 = [c:C] y: nested includes all use the outermost rule\'s setting'))
+
+S.append(Schema('include_choice_closure', [Rule('R', Alt(Seq(Plus(Inc('I')), Eoi()), fc()), skip=False, export=True),
+                                           Rule('I', Alt(fa(), Seq(Lit('y'), fb())), skip=True)], 'R', 'ABC', n=3, alphabet='x y', nonzero='A',
+    props=('C13',), extract=J(vec(0, 'v.a'), vec(1, 'v.b'), opt(2, 'v.c')),
+    note='{>I}+ $ | c:C with I = a:A | y b:B (declared skipping, included by a @no_skip_ws rule): include of a choice inside a closure'))
+
+S.append(Schema('derives_empty', [Rule('R', Seq(fa(), Opt(fb())), skip=False, export=True)], 'R', 'AB', n=3, derives=[],
+    props=('C03',), extract=J(one(0, 'v.a'), opt(1, 'v.b')),
+    note='empty derive set: generated types and parser still compile'))
+
+S.append(Schema('memo_position', [Rule('R', Alt(Seq(F('m', 0, Ref('M')), fc()), Seq(F('m', 0, Ref('M')), fd())), export=True),
+                                  Rule('M', Seq(fa(), Opt(B)), memo=True, position=(0, 1))], 'R', 'ABCD', n=2, alphabet='x ',
+    props=('C05', 'C06', 'C09'), cmp_err=False,
+    extract=J(one(0, 'v.m.a'), opt(2, 'v.c'), opt(3, 'v.d'), '                o.x[0] = v.m.position.start as i32; o.x[1] = v.m.position.end as i32;'),
+    post='        if max_count(0) > 1 { return Err("C06: the body of a @memoize rule was evaluated more than once at one position"); }',
+    note='@memoize @position in a skipping rule: a cache hit replays the same range'))
+
+# ---------------------------------------------------------------------------------------------- third batch
+LRC_SUPPORT = '    pub fn chk_l(v: &L) -> bool { fn depth(l: &L) -> usize { match &l.l { Some(p) => 1 + depth(p), None => 0 } } check(0, tag(9, depth(v), 0)) }\n'
+S.append(Schema('leftrec_check', [Rule('R', Seq(F('l', 0, Ref('L')), Opt(fc())), skip=False, export=True),
+                                  Rule('L', Alt(Seq(F('l', 0, Ref('L'), boxed=True), fb()), fa()), skip=False, leftrec=True, checks=[(0, 'chk_l', 'count', 1)])], 'R', 'ABC', n=3, nchk=1, nonzero='B',
+    props=('C07', 'C14'), cmp_err=False, support=LRC_SUPPORT, extract=LR_EXTRACT,
+    note='@leftrec @check L = l:*L b:B | a:A: a growth step the check rejects ends the growth, the last accepted tree is the result'))
+
+S.append(Schema('leftrec_memoize', [Rule('R', Seq(F('l', 0, Ref('L')), Opt(fc())), skip=False, export=True),
+                                    Rule('L', Alt(Seq(F('l', 0, Ref('L'), boxed=True), fb()), fa()), skip=False, leftrec=True, memo=True)], 'R', 'ABC', n=3, nonzero='B',
+    props=('C07', 'C05', 'C01'), cmp_err=False, extract=LR_EXTRACT,
+    note='@memoize @leftrec on one rule (redundant but legal): same result as @leftrec alone'))
+
+S.append(Schema('ws_literal_leading_space', [Rule('R', Seq(fa(), Lit(' y'), Eoi()), export=True)], 'R', 'A', n=4, alphabet='x y',
+    props=('C08', 'C01'), extract=J(one(0, 'v.a')),
+    note="a:A ' y' $ in a skipping rule: whitespace is skipped before EVERY literal, also one that starts with a blank (which then cannot match after blanks)"))
+S.append(Schema('ws_custom_literal_space', [Rule('R', Seq(fa(), Lit(' y'), Eoi()), export=True)], 'R', 'A', n=4, alphabet='_ y', custom_ws='_',
+    props=('C08',), extract=J(one(0, 'v.a')),
+    note="the same with Whitespace = {'_'}: the blank is an ordinary character, '_' is skipped in front of the literal"))
+
+S.append(Schema('string_skipping', [Rule('R', Seq(fc(), F('s', 0, Ref('St')), fd()), skip=False, export=True),
+                                    Rule('St', Seq(Star(B)), skip=True, string=(0, 1))], 'R', 'BCD', n=3, alphabet='x ', nonzero='B',
+    props=('C08', 'C09', 'C02'),
+    extract=J(one(2, 'v.c'), one(3, 'v.d'), '                let cs = tag_pos(v.c) + tag_len(v.c);', '                o.x[0] = cs as i32; o.x[1] = v.s.len() as i32;',
+              '                if cs + v.s.len() > t.n || v.s.as_bytes() != &t.sym[cs..cs + v.s.len()] { o.x[2] = -1; }'),
+    note='a skipping @string rule St = {B} called from a @no_skip_ws rule: no whitespace is skipped at rule entry, the slice starts where the rule was entered'))
+
+S.append(Schema('memo_ws_from_noskip', [Rule('R', Alt(Seq(fc(), F('m', 0, Ref('M')), fd()), Seq(fc(), F('m', 0, Ref('M')))), skip=False, export=True),
+                                        Rule('M', Seq(Opt(fa())), skip=True, memo=True, position=(0, 1))], 'R', 'ACD', n=3, alphabet='x ',
+    props=('C05', 'C09'), cmp_err=False,
+    extract=J(one(2, 'v.c'), opt(0, 'v.m.a'), opt(3, 'v.d'), '                o.x[0] = v.m.position.start as i32; o.x[1] = v.m.position.end as i32;'),
+    note='a skipping @memoize @position rule with a nullable body called from a @no_skip_ws rule: the cache key is the offset where the rule was entered'))
+
+S.append(Schema('position_closure', [Rule('R', Seq(fc(), Star(F('p', 0, Ref('P'))), Eoi()), export=True),
+                                     Rule('P', Seq(fa()), position=(0, 1))], 'R', 'AC', n=4, alphabet='x ', nonzero='A',
+    props=('C09', 'C08'),
+    extract=J(one(2, 'v.c'), '                for p in v.p.iter() { o.f[0].push(p.a); o.x[0] = p.position.start as i32; o.x[1] = p.position.end as i32; }',
+              '                let mut last = 0; for p in v.p.iter() { if p.position.start < last { o.x[2] = -1; } last = p.position.end; }'),
+    note='c:C {p:P} $ with @position P: a rule reference that is the sole body of a closure still has the whitespace in front of it skipped by the caller'))
+
+S.append(Schema('string_override', [Rule('R', Seq(F('s', 0, Ref('Sq')), Opt(fc())), skip=False, export=True),
+                                    Rule('Sq', Seq(B, F('_', 1, A, override=True)), skip=False, string=(0, 1))], 'R', 'ABC', n=3, cmp_fields=False,
+    props=('C03', 'C02'),
+    extract=J(ty('v.s', 'String'), '                o.x[0] = 0; o.x[1] = v.s.len() as i32;', '                if v.s.as_bytes() != &t.sym[0..v.s.len()] { o.x[2] = -1; }'),
+    note='@string Sq = B @:A: a @string rule is a String (the consumed slice) even when its body contains an override field'))
+
+S.append(Schema('optional_nested', [Rule('R', Seq(Opt(Opt(fa())), Opt(Grp(Opt(fb()))), fc()), skip=False, export=True)], 'R', 'ABC', n=3,
+    props=('C03', 'C01', 'C02'),
+    extract=J(ty('v.a', 'Option<A>'), opt(0, 'v.a'), opt(1, 'v.b'), one(2, 'v.c')),
+    note='[[a:A]] [([b:B])] c:C: an optional directly inside an optional'))
+
+S.append(Schema('include_fieldless_check', [Rule('R', Seq(fa(), Inc('I'), fc()), export=True),
+                                            Rule('I', Seq(B, Opt(Lit('y'))), checks=[(0, 'crate::ops::never', 'none')], memo=True)], 'R', 'ABC', n=3, alphabet='x y',
+    props=('C13',), extract=J(one(0, 'v.a'), one(2, 'v.c')),
+    note='a:A >I c:C with @memoize @check(never) I = B [y] (no fields): the directives of the included rule have no effect at the include site'))
+
+S.append(Schema('include_chain', [Rule('R', Seq(fa(), Inc('I1'), Eoi()), skip=False, export=True),
+                                  Rule('I1', Seq(Inc('I2'), fc()), skip=False), Rule('I2', Seq(fb()), skip=False)], 'R', 'ABC', n=3,
+    props=('C13',), extract=J(one(0, 'v.a'), one(1, 'v.b'), one(2, 'v.c')),
+    note='a:A >I1 $ with I1 = >I2 c:C and I2 = b:B: an included body that itself starts with an include keeps its remaining parts'))
+
 # ---------------------------------------------------------------------------------------------- extern / context / tracing
 S.append(Schema('extern_ctx', [Rule('R', Seq(fa(), Opt(fb())), export=True)], 'R', 'AB', n=3, alphabet='x ', user_ctx='crate::ops::Ctx',
     props=('C14',), extract=J(one(0, 'v.a'), opt(1, 'v.b')),
